@@ -582,7 +582,7 @@ class Circle(Ellipse):
     @property
     def area(self) -> float:
         """The area of the circle."""
-        return 2 * np.pi * self.radius**2
+        return np.pi * self.radius**2
 
 
 class Sphere(Quadric):
